@@ -20,10 +20,14 @@ for d in glob.glob(os.path.join(V, "seeded", "*")):
     except Exception:
         continue
     p = r["property"]
-    seeds.setdefault(p, [0, 0])
-    seeds[p][0] += 1
-    seeds[p][1] += 1 if r.get("caught") else 0
-print("| prop | theorems (closed) | quick: correspondence cases / direct checks / wall | open findings | fixed in /repo | seeded changes caught |")
+    seeds.setdefault(p, [0, 0, 0, 0])
+    if r.get("benign"):
+        seeds[p][2] += 1
+        seeds[p][3] += 0 if r.get("false_alarm") else 1
+    else:
+        seeds[p][0] += 1
+        seeds[p][1] += 1 if r.get("caught") else 0
+print("| prop | theorems (closed) | quick: correspondence cases / direct checks / wall | open findings | fixed in /repo | seeded changes caught; benign edits quiet |")
 print("|---|---|---|---|---|---|")
 for p in props:
     pid = p["id"]
@@ -37,4 +41,4 @@ for p in props:
         th, run = "-", "-"
     k = known.get(pid, {"open": set(), "fixed": 0})
     s = seeds.get(pid)
-    print("| %s | %s | %s | %s | %d | %s |" % (pid, th, run, ", ".join(sorted(x for x in k["open"] if x)) or "-", k["fixed"], ("%d/%d" % (s[1], s[0])) if s else "-"))
+    print("| %s | %s | %s | %s | %d | %s |" % (pid, th, run, ", ".join(sorted(x for x in k["open"] if x)) or "-", k["fixed"], ("%d/%d; %d/%d" % (s[1], s[0], s[3], s[2])) if s else "-"))
